@@ -89,7 +89,12 @@ def install_contracts(R):
 
 
 def gen_axis(rng, n):
-    kind = rng.integers(0, 4)
+    kind = rng.integers(0, 6)
+    if kind == 4:  # sub-daily steps: a date-only string is an instant (midnight), not the whole day
+        return pd.date_range("2000-01-01", periods=n, freq="6h")
+    if kind == 5:  # irregular steps off midnight
+        gaps = np.cumsum(rng.integers(5, 200, n))
+        return pd.DatetimeIndex(np.datetime64("2003-03-01T00:00") + gaps.astype("timedelta64[h]"))
     if kind == 0:
         return pd.date_range("2000-01-01", periods=n, freq="MS")
     if kind == 1:
@@ -185,10 +190,30 @@ def run_case(R, rng, it):
         ids = gen_labels(rng, n, k, ["interleaved", "blocked", "random"][int(rng.integers(0, 3))])
         labels = spell(rng, ids, ["int", "str_num", "float", "names"][int(rng.integers(0, 4))])
     kw = {}
+
+    def spell_date(v):
+        """How the instant is handed over: full timestamp string, Timestamp, or a coarser string (day / month) whose
+        meaning is its first instant, as np.datetime64 reads it."""
+        r = rng.random()
+        if r < 0.45:
+            return str(v), v
+        if r < 0.6:
+            return v, v
+        if r < 0.85:
+            d = pd.Timestamp(v).normalize()
+            return d.strftime("%Y-%m-%d"), d
+        d = pd.Timestamp(v).normalize().replace(day=1)
+        return d.strftime("%Y-%m"), d
+
     if begin is not None:
-        kw["calibration_begin"] = str(begin) if rng.random() < 0.7 else begin
+        kw["calibration_begin"], begin = spell_date(begin)
     if end is not None:
-        kw["calibration_end"] = str(end) if rng.random() < 0.7 else end
+        kw["calibration_end"], end = spell_date(end)
+    b_eff = tix[0] if begin is None else begin
+    e_eff = tix[-1] if end is None else end
+    inwin = (tix >= b_eff) & (tix <= e_eff)
+    if isinstance(kw.get("calibration_begin"), str) and len(kw["calibration_begin"]) <= 10 or isinstance(kw.get("calibration_end"), str) and len(kw["calibration_end"]) <= 10:
+        R.count("coarse_date_strings")
     if grouped:
         kw["groups"] = labels
     case = {"time": tix.values, "begin": None if begin is None else str(begin), "end": None if end is None else str(end),
